@@ -113,6 +113,26 @@ def _sweep_prefix(args):
     return col
 
 
+def _sweep_structured(length):
+    """Longer strings by structure: every two-digit prefix x every two-digit suffix class x a few fillers (the first and last
+    octets are where TBCD implementations special-case: TON/NPI-looking first octets, filler nibble, odd/even length)."""
+    utils = _lib()
+    errors = common.lib_errors()
+    col = Collector(PID, RULE)
+    n = 0
+    k = length - 4
+    fillers = ["0" * k, "9" * k, ("1234567890" * 3)[:k], ("97531086420" * 3)[:k]]
+    for p in itertools.product("0123456789", repeat=2):
+        for suf in ("00", "19", "91", "0f"[:1] + "9", "55"):
+            for fill in fillers:
+                s = "".join(p) + fill + suf
+                n += 1
+                for v in check_string(s, utils, errors):
+                    col.violation({"kind": "string", "s": s}, v)
+    col.count_enum(n, n, {f"structured-len={length}": n, ("even" if length % 2 == 0 else "odd"): n, "structured-long": n})
+    return col
+
+
 def run_case(case):
     utils = _lib()
     errors = common.lib_errors()
@@ -152,6 +172,8 @@ def main(ctx):
                 jobs.append((length, "".join(p)))
     for part in common.pmap(_sweep_prefix, jobs):
         col.merge(part)
+    for part in common.pmap(_sweep_structured, list(range(6, 25 if ctx.quick else 41))):
+        col.merge(part)
     col.exhaustive = True
     col.extra["exhaustive_scope"] = f"all digit strings of length 0..{maxlen} ({sum(10**k for k in range(maxlen + 1))} strings)"
     col.samples = [{"kind": "string", "s": "", "ref": ""}, {"kind": "string", "s": "1234", "ref": ref_tbcd("1234")},
@@ -176,7 +198,7 @@ def main(ctx):
                    classes=[case["kind"], "even" if len(s) % 2 == 0 else "odd", f"rand-len={len(s)}"])
 
     common.hyp_collect(cases, body, n_rand, ctx.seed)
-    ctx.required_classes = ["string", "int", "avp", "even", "odd"]
+    ctx.required_classes = ["string", "int", "avp", "even", "odd", "structured-long"]
     ctx.assumptions = ["digit strings only (the statement's domain); ints have no leading zero; "
                        "special TBCD characters (*, #, a-c) are outside the statement"]
 
